@@ -27,7 +27,9 @@ CAP = 60
 KINDS = ['incr', 'decr', 'setnp', 'restart', 'reload', 'reloadseq', 'reloadterm', 'stop', 'start', 'kill',
          'extkill', 'selfexit', 'selfexit', 'sigexit', 'sigexit', 'check', 'check', 'advance', 'dieat', 'qpoint',
          'signal_nf']
-TERM_SIGS = [1, 2, 3, 6, 9, 10, 11, 12, 13, 14, 15]
+TERM_SIGS = [1, 2, 3, 6, 9, 10, 11, 12, 13, 14, 15,
+             # real-time signals (no name in Python's signal module), and deaths with a core dump (bit 0x80)
+             34, 35, 40, 63, 64, 3 | 0x80, 6 | 0x80, 11 | 0x80]
 
 
 def gen_spec(rnd):
